@@ -1027,11 +1027,53 @@ def rule_fwdsib(ctx, prop: str) -> RuleResult:
                             f"`{ast.unparse(n)}` is not the image of the block's own two ends (neither length-preserving, nor an endpoint-wise map, nor the block shrunk by the wrapped statements): "
                             f"a block [x, y] inside a wrapped run [x, y, z] is forwarded to [x, y, z] — it denotes a statement it never contained")
                 )
+    # (d) the guard that decides "this block only partly survives the edit" is a SYMMETRIC relation of two
+    #     ranges (a overlaps b at its front, or b overlaps a at its front): its second disjunct is the first with
+    #     the two ranges exchanged.  With the ends of one disjunct mixed up, a block that starts inside a replaced
+    #     range and ends after it is forwarded by index arithmetic and silently loses statements.
+    ip = m.funcs.get("_intersects_partially")
+    if ip is None:
+        raise AnalysisError("anchor vanished: _intersects_partially")
+    res.instances += 1
+    res.nontrivial += 1
+    res.analysed.append(f"{IC}:_intersects_partially")
+    rets = [n for n in ip.body_nodes() if isinstance(n, ast.Return) and n.value is not None]
+    ps_ = ip.params()
+    ok = False
+    detail = "no single `return <x> or <y>`"
+    if len(rets) == 1 and isinstance(rets[0].value, ast.BoolOp) and isinstance(rets[0].value.op, ast.Or) and len(rets[0].value.values) == 2 and len(ps_) == 2:
+        d1, d2 = rets[0].value.values
+        a_, b_ = ps_
+
+        class Swap(ast.NodeTransformer):
+            def visit_Name(self, node):
+                return ast.copy_location(ast.Name(id={a_: b_, b_: a_}.get(node.id, node.id), ctx=node.ctx), node)
+
+        d1s = ast.unparse(Swap().visit(ast.parse(ast.unparse(d1), mode="eval").body))
+        ok = d1s == ast.unparse(d2)
+        # each disjunct is the strict chain  x.start < y.start < x.stop < y.stop
+        def chain_ok(d, x, y):
+            return isinstance(d, ast.Compare) and all(isinstance(o, ast.Lt) for o in d.ops) and [ast.unparse(t) for t in [d.left] + d.comparators] == [f"{x}.start", f"{y}.start", f"{x}.stop", f"{y}.stop"]
+        ok = ok and (chain_ok(d1, a_, b_) or chain_ok(d1, b_, a_))
+        detail = f"`{ast.unparse(d1)}` / `{ast.unparse(d2)}`"
+    def _is_chain4(d):
+        return isinstance(d, ast.Compare) and len(d.ops) == 3 and all(isinstance(o, ast.Lt) for o in d.ops) and all(isinstance(t, ast.Attribute) and t.attr in ("start", "stop") for t in [d.left] + d.comparators)
+
+    if not ok and not (len(rets) == 1 and isinstance(rets[0].value, ast.BoolOp) and len(rets[0].value.values) == 2 and all(_is_chain4(d) for d in rets[0].value.values)):
+        # some other formulation (conjunctions, helper calls ...): not decidable by this clause
+        raise AnalysisError(f"FWDSIB: _intersects_partially is no longer written as two strict chains over .start/.stop ({detail}): re-confirm the clause")
+    res.ob(ok)
+    res.sample(f"_intersects_partially: second disjunct is the first with the ranges exchanged, each `x.start < y.start < x.stop < y.stop`: {ok}")
+    if not ok:
+        res.add(Finding("FWDSIB", IC, ip.lineno, "_intersects_partially", "partial-overlap-symmetric",
+                        f"_intersects_partially returns {detail}: partial overlap is `x.start < y.start < x.stop < y.stop` for one order of the two ranges or the other. As written, one of the two "
+                        f"overlap cases is not recognised, and a block cursor with one end inside a replaced / moved range is forwarded by index arithmetic instead of being invalidated — "
+                        f"after specialize(body[1:4]) the block body[3:6] forwards to [x[5]] and silently loses x[4]"))
     if n_rng < 4:
         raise AnalysisError(f"FWDSIB: expected >= 4 forwarded block ranges in the fwd_block siblings, found {n_rng}")
     if n_pairs < 3:
         raise AnalysisError(f"FWDSIB: expected >= 3 fwd_node/fwd_block sibling pairs in internal_cursors.py, found {n_pairs}")
-    res.floor = 7
+    res.floor = 8
     return res
 
 
